@@ -3,9 +3,27 @@ NOTES = 'See DESIGN.md. Exit codes: 0 held, 1 VIOLATION line(s), 2 harness error
 ALL = ['C%02d' % i for i in range(1, 21)]
 
 chk('C14', 'model_checking',
-    'BFS to a fixed point over all histories of gv(...)/clean() calls from a 265-action alphabet (closure: the frontier empties, so the invariant holds for histories of ANY length over that alphabet), every transition executed on the real singleton in lock-step with a reference model; plus exhaustive ordered call sequences of the public functions for purity/determinism/aliasing',
-    'alphabet of rates is finite (powers of two times 1e9, commensurate); wall-clock execution_time is excluded from comparison; numpy RNG reseeded through the public seed call',
-    'explicit-state BFS to fixed point on the real gv object + exhaustive call-order enumeration with differential oracle', 'DESIGN.md 5/C14')
+    'part A: BFS to a fixed point over all histories of gv(...)/clean() calls from an alphabet of 469 (quick) / 1 733 (thorough) actions: clean(), 443 keyword calls (every '
+    'commensurate subset of the core sps/R/fs/wavelength/N/custom values; sps, R, fs, N, wavelength also as float / numpy scalar / 0-d / Python int; odd N*sps; rates whose '
+    'float quotient is one ulp off the integer; customs alpha/beta from separate calls), 15 positional spellings, 10 failing/odd calls each followed by clean(). The frontier '
+    'empties (quick depth 6: 1 508 states, 684 164 transitions; thorough depth 7: 8 190 states, 13.76 M transitions), so the invariant holds for histories of ANY length over '
+    'that alphabet; every transition is executed on the real singleton (state reached by replaying its shortest history) in lock-step with a reference model; in every '
+    'successor: sps positive int, fs = R*sps, dt = 1/fs, f0 = c/wavelength, the given values in force, t/w/dw consistent with N, no grid without N, customs exactly those '
+    'given since clean(), clean() == new instance incl. types. Plus 72 / 216 histories with a custom keyword of 18 kinds of value (None, containers, arrays, callables...) x 4 '
+    'placements, then clean(). Part B: menu of 183 public calls (devices, codecs, DSP, utils, signal operators; dtype, length-1, prime-length, long, layout, scale, boundary, '
+    'container, optional-argument and chained-pipeline entries) on shared write-protected inputs under 4 ambient grids (one with N in force); oracle for every call = the '
+    'same call made FIRST in a fresh interpreter (732 subprocesses, 2 numpy seeds). Executed: every entry twice per seed and grid; every ordered pair on the base grid; '
+    'every entry under every grid switch g1,g2,g1 (2 196); every ordered pair of cheap entries across a grid switch; every ordered triple of 36 cheap entries (quick) / of '
+    '114 entries + every quadruple of 16 (thorough): 231 636 / 1.77 M library calls. After every call: gv and argument bytes unchanged, no output shares memory with an '
+    'argument or gv.t/gv.w, earlier outputs intact; examined outputs are overwritten to expose memoised buffers',
+    'the fixed point is relative to the finite alphabet: commensurate rates only (fs/R = x.5 only as an odd call before clean()), a handful of values per attribute, two custom '
+    'names; two singleton states are identified when all attributes are equal BY VALUE (1e9, 10**9, np.float64(1e9) are one state); nothing is asserted about the state a '
+    'failing call leaves, only that clean() restores the defaults; N = 0, non-integer sps/N, keyword names that shadow methods/grid attributes are outside; the t[-1] endpoint '
+    'convention is not fixed; part B covers call sequences of length 2 everywhere, 3 (4) only over the cheap sub-menus, on one canned input per entry; wall-clock '
+    'execution_time is excluded from comparison; display helpers (str/repr/print/sizeof), tic/toc, plotting and lab instruments are not in the menu; numpy RNG reseeded '
+    'through the public seed call',
+    'explicit-state BFS to fixed point on the real gv object in lock-step with a reference model + exhaustive call-order enumeration with a fresh-interpreter differential '
+    'oracle', 'DESIGN.md 5/C14')
 
 import glob as _glob
 for _f in sorted(_glob.glob(os.path.join(os.path.dirname(os.path.abspath(__file__)) if '__file__' in dir() else '/verif', 'manifest.d', 'C*.py'))):
